@@ -11,6 +11,8 @@ use crate::util::Address;
 use crate::MMAPPER;
 
 /// Performs address translation in contiguous metadata spaces (e.g. global and policy-specific in 64-bits, and global in 32-bits)
+#[cfg_attr(kani, kani::requires(crate::verif_contracts::side::pre_address_to_contiguous_meta_address(metadata_spec, data_addr)))]
+#[cfg_attr(kani, kani::ensures(|r: &Address| crate::verif_contracts::side::post_address_to_contiguous_meta_address(metadata_spec, data_addr, *r)))]
 pub(super) fn address_to_contiguous_meta_address(
     metadata_spec: &SideMetadataSpec,
     data_addr: Address,
@@ -223,6 +225,8 @@ pub(super) const fn metadata_address_range_size(metadata_spec: &SideMetadataSpec
     1usize << (VMLayout::LOG_ARCH_ADDRESS_SPACE - log_data_meta_ratio(metadata_spec))
 }
 
+#[cfg_attr(kani, kani::requires(crate::verif_contracts::side::pre_spec(metadata_spec)))]
+#[cfg_attr(kani, kani::ensures(|r: &u8| crate::verif_contracts::side::post_meta_byte_lshift(metadata_spec, data_addr, *r)))]
 pub(super) fn meta_byte_lshift(metadata_spec: &SideMetadataSpec, data_addr: Address) -> u8 {
     let bits_num_log = metadata_spec.log_num_of_bits as i32;
     if bits_num_log >= 3 {
@@ -233,6 +237,8 @@ pub(super) fn meta_byte_lshift(metadata_spec: &SideMetadataSpec, data_addr: Addr
         as u8
 }
 
+#[cfg_attr(kani, kani::requires(crate::verif_contracts::side::pre_meta_byte_mask(metadata_spec)))]
+#[cfg_attr(kani, kani::ensures(|r: &u8| crate::verif_contracts::side::post_meta_byte_mask(metadata_spec, *r)))]
 pub(super) fn meta_byte_mask(metadata_spec: &SideMetadataSpec) -> u8 {
     let bits_num_log = metadata_spec.log_num_of_bits;
     ((1usize << (1usize << bits_num_log)) - 1) as u8
@@ -834,5 +840,50 @@ mod tests {
             align_metadata_address(&metadata_16bits, ADDR_1001, 7),
             (ADDR_1000, 0)
         );
+    }
+}
+
+/// Forwarders for the external verification harnesses (see `crate::verif_hooks`). One call each, no logic.
+#[cfg(any(kani, mmtk_verif))]
+pub mod verif_hooks {
+    use super::*;
+    pub fn address_to_contiguous_meta_address(s: &SideMetadataSpec, a: Address) -> Address {
+        super::address_to_contiguous_meta_address(s, a)
+    }
+    pub fn contiguous_meta_address_to_address(s: &SideMetadataSpec, m: Address, bit: u8) -> Address {
+        super::contiguous_meta_address_to_address(s, m, bit)
+    }
+    pub fn align_metadata_address(s: &SideMetadataSpec, m: Address, bit: u8) -> (Address, u8) {
+        super::align_metadata_address(s, m, bit)
+    }
+    pub fn meta_byte_lshift(s: &SideMetadataSpec, a: Address) -> u8 {
+        super::meta_byte_lshift(s, a)
+    }
+    pub fn meta_byte_mask(s: &SideMetadataSpec) -> u8 {
+        super::meta_byte_mask(s)
+    }
+    pub fn log_data_meta_ratio(s: &SideMetadataSpec) -> usize {
+        super::log_data_meta_ratio(s)
+    }
+    pub fn data_to_meta_size_round_up(s: &SideMetadataSpec, n: usize) -> usize {
+        super::data_to_meta_size_round_up(s, n)
+    }
+    pub fn meta_to_data_size(s: &SideMetadataSpec, n: usize) -> usize {
+        super::meta_to_data_size(s, n)
+    }
+    pub fn metadata_address_range_size(s: &SideMetadataSpec) -> usize {
+        super::metadata_address_range_size(s)
+    }
+    pub fn find_last_non_zero_bit_u8(v: u8, start: u8, end: u8) -> Option<u8> {
+        super::find_last_non_zero_bit::<u8>(v, start, end)
+    }
+    pub fn find_last_non_zero_bit_usize(v: usize, start: u8, end: u8) -> Option<u8> {
+        super::find_last_non_zero_bit::<usize>(v, start, end)
+    }
+    pub fn find_first_non_zero_bit_u8(v: u8, start: u8, end: u8) -> Option<u8> {
+        super::find_first_non_zero_bit::<u8>(v, start, end)
+    }
+    pub fn find_first_non_zero_bit_usize(v: usize, start: u8, end: u8) -> Option<u8> {
+        super::find_first_non_zero_bit::<usize>(v, start, end)
     }
 }
